@@ -244,7 +244,8 @@ def run(ctx, impl_only=False):
                 if d:
                     ctx.violate(case, 'a value altered only in what %s ignores gives a non-empty diff: %s' % (name, str(d)[:150]))
             # the same pair under the option plus a second one, and with the second option's normaliser applied on top
-            for other in ctx.rng.sample([o for o in OPTIONS if o != name], 3 if ctx.thorough() else 2):
+            others_all = [o for o in OPTIONS if o != name]
+            for other in [others_all[(2 * i + t) % len(others_all)] for t in range(3 if ctx.thorough() else 2)]:      # every pair is met every few cases
                 y2 = y
                 if other in NORMALISERS and ctx.rng.random() < 0.6:
                     fn2, keys2 = NORMALISERS[other]
